@@ -2018,6 +2018,7 @@ func runC17(c *ctx) {
 	c17Budgets(c, bin)
 	c17Probes(c, bin, 10)
 	c17Clients(c, bin)
+	c17Selfplay(c)
 }
 
 // ---------------------------------------------------------------------------------------------------------------------
@@ -2644,6 +2645,243 @@ func c17LongGame(size, plies int) string {
 		w = append(w, cyc[i%4])
 	}
 	return strings.Join(w, " ")
+}
+
+// ---------------------------------------------------------------------------------------------------------------------
+// c17Selfplay: the SYSTEM - cmd/internal/selfplay's `worker` (in build/selfplay.test, harness/overlay/selfplay_driver_test.go.txt)
+// plays whole games between two engine processes (the real Engine.Run at depth 1-2, or the scripted process): per game the moves,
+// the final position and the winner, and every line each engine process received.  Oracle: the moves are legal one after the other
+// from the opening (rules oracle) and lead to the reported position; the winner is the outcome of that position when the game is
+// over there, nobody when the loop ran into Cutoff, and otherwise - a clock was in use - the opponent of the side to move
+// (classes selfplay-illegal-move, selfplay-position-wrong, selfplay-winner-wrong).  Model: coq/Selfplay.v over the engine model
+// (L1 = status, results, lines; clock numbers on go lines masked: they are wall-clock readings).
+type c17SP struct {
+	family                      string
+	cutoff                      int
+	limit, gametime, inc        int64
+	p1, p2                      string
+	openings                    []*aboard
+	p1white                     []bool
+	slow                        string // "-" or "<game>.<call>": that call is answered after 1.5 s
+}
+
+func c17MaskGo(l string) string {
+	w := strings.Split(l, " ")
+	if len(w) == 0 || w[0] != "go" {
+		return l
+	}
+	for i := 1; i < len(w); i++ {
+		if w[i-1] == "movetime" || w[i-1] == "wtime" || w[i-1] == "btime" {
+			w[i] = "#"
+		}
+	}
+	return strings.Join(w, " ")
+}
+
+func c17Selfplay(c *ctx) {
+	r := c.r
+	harness, build := c17Dirs()
+	cmd := exec.Command("bash", filepath.Join(harness, "build_c17sp.sh"))
+	cmd.Env = os.Environ()
+	if out, err := cmd.CombinedOutput(); err != nil {
+		fmt.Fprintf(os.Stderr, "build_c17sp.sh failed: %v\n%s\n", err, out)
+		os.Exit(3)
+	}
+	opening := func(size, plies int) *aboard {
+		for {
+			ps, _ := randomGame(r, tak.Config{Size: size}, plies, -1, false)
+			p := ps[len(ps)-1]
+			if over, _ := p.GameOver(); !over {
+				return absOf(p)
+			}
+		}
+	}
+	var ss []*c17SP
+	for k := 0; k < 8*c.scale; k++ {
+		s := &c17SP{family: "plain", cutoff: 4 + r.Intn(40), p1: "real:1", p2: "real:1", slow: "-"}
+		size := 3 + r.Intn(3)
+		if r.Intn(3) == 0 && size == 3 {
+			s.p1 = "real:2"
+		}
+		if r.Intn(4) == 0 && size == 3 {
+			s.p2 = "real:2"
+		}
+		for g := 0; g < 1+r.Intn(3); g++ {
+			s.openings = append(s.openings, opening(size, r.Intn(2)*r.Intn(6)))
+			s.p1white = append(s.p1white, g%2 == 0 || r.Intn(2) == 0)
+		}
+		if k%3 == 1 {
+			s.family = "clocks"
+			s.gametime = 3600000000000 * int64(1+r.Intn(3))
+			s.inc = []int64{0, 1000000000, 10000000000}[r.Intn(3)]
+			if r.Intn(2) == 0 {
+				s.limit = 3600000000000
+			}
+		}
+		ss = append(ss, s)
+	}
+	hx := func(t string) string { return hex.EncodeToString([]byte(t)) }
+	// a time loss: the second engine answers its first go after 1.5 s with 1 s on the clock
+	ss = append(ss, &c17SP{family: "time-loss", cutoff: 30, gametime: 1000000000, p1: "real:1", p2: "rules:" + hx("go 1 d "+hx("bestmove b2\n")+"\n"),
+		openings: []*aboard{c17EmptyBoard(3)}, p1white: []bool{true}, slow: "0.1"})
+	// an illegal answer: the scripted engine says a1 where a stone stands
+	ss = append(ss, &c17SP{family: "illegal-answer", cutoff: 30, p1: "real:1", p2: "rules:" + hx("\n"),
+		openings: []*aboard{c17EmptyBoard(3)}, p1white: []bool{true}, slow: "-"})
+	var reqs []string
+	games := make([]string, len(ss))
+	for i, s := range ss {
+		var gs []string
+		for g, a := range s.openings {
+			col := "w"
+			if !s.p1white[g] {
+				col = "b"
+			}
+			gs = append(gs, col+":"+hx(c17FormatTPS(a)))
+		}
+		games[i] = strings.Join(gs, ",")
+		reqs = append(reqs, fmt.Sprintf("W %d %d %d %d %d %s %s %s", i, s.cutoff, s.limit, s.gametime, s.inc, s.p1, s.p2, games[i]))
+	}
+	dir := filepath.Join(build, "c17sp")
+	in, outp := filepath.Join(dir, "req-"+c.tier+".txt"), filepath.Join(dir, "resp-"+c.tier+".txt")
+	os.WriteFile(in, []byte(strings.Join(reqs, "\n")+"\n"), 0o644)
+	os.Remove(outp)
+	run := exec.Command(filepath.Join(build, "selfplay.test"), "-test.run", "^TestVerifSelfplayDriver$", "-test.timeout", "0")
+	run.Env = append(os.Environ(), "VERIF_SP_IN="+in, "VERIF_SP_OUT="+outp, "VERIF_TEI_TEST="+filepath.Join(build, "tei.test"))
+	if o, err := run.CombinedOutput(); err != nil {
+		fmt.Fprintf(os.Stderr, "selfplay.test failed: %v\n%s\n", err, o)
+		os.Exit(3)
+	}
+	data, _ := os.ReadFile(outp)
+	resp := strings.Split(strings.TrimSuffix(string(data), "\n"), "\n")
+	if len(resp) != len(reqs) {
+		fmt.Fprintf(os.Stderr, "selfplay.test: %d responses for %d requests\n", len(resp), len(reqs))
+		os.Exit(3)
+	}
+	decodeLog := func(h string) (lines []string, trans []string) {
+		if h == "-" {
+			return
+		}
+		raw, _ := hex.DecodeString(h)
+		for _, l := range strings.Split(strings.TrimRight(string(raw), "\n"), "\n") {
+			w := strings.Fields(l)
+			if len(w) != 3 {
+				continue
+			}
+			t := ""
+			if w[0] != "-" {
+				b, _ := hex.DecodeString(w[0])
+				t = string(b)
+			}
+			lines = append(lines, hx(c17MaskGo(t)))
+			trans = append(trans, w[1]+":"+w[2])
+		}
+		return
+	}
+	for i, s := range ss {
+		f := strings.Split(resp[i], " ")
+		inp := fmt.Sprintf("selfplay;%s;cutoff %d limit %d gametime %d inc %d;%s;%s;%s", s.family, s.cutoff, s.limit, s.gametime, s.inc, s.p1, s.p2, games[i])
+		if len(f) != 6 || f[0] != "W" {
+			c.printf("ORACLE-FAIL selfplay-driver | %s | %s | a W response\n", inp, resp[i])
+			continue
+		}
+		c.stat("selfplay_sessions", 1)
+		c.stat("selfplay_family_"+s.family, 1)
+		status := f[2]
+		if strings.HasPrefix(status, "panic:") {
+			msg, _ := hex.DecodeString(status[6:])
+			if strings.HasPrefix(string(msg), "illegal move") {
+				status = "panic:illegal"
+			} else {
+				status = "panic:other"
+			}
+			if s.family != "illegal-answer" {
+				c.printf("ORACLE-FAIL selfplay-panic | %s | the worker panicked: %s | every game between two engines is played to a result\n", inp, msg)
+				continue
+			}
+		}
+		bad := false
+		if f[3] != "-" {
+			for g, gr := range strings.Split(f[3], "/") {
+				part := strings.Split(gr, ":")
+				if len(part) != 3 || g >= len(s.openings) {
+					bad = true
+					break
+				}
+				c.stat("selfplay_games", 1)
+				a := s.openings[g].clone()
+				nm := 0
+				if part[0] != "-" {
+					for _, mt := range strings.Split(part[0], "+") {
+						var x, y, t, sl int
+						fmt.Sscanf(mt, "%d.%d.%d.%d", &x, &y, &t, &sl)
+						nx := a.rulesMove(tak.Move{X: int8(x), Y: int8(y), Type: tak.MoveType(t), Slides: tak.Slides(sl)})
+						if nx == nil {
+							c.printf("ORACLE-FAIL selfplay-illegal-move | %s | game %d: move %d (%s) is not legal in %s | every move of the record is legal where it was played\n", inp, g, nm+1, mt, c17FormatTPS(a))
+							bad = true
+							break
+						}
+						a = nx
+						nm++
+					}
+				}
+				if bad {
+					break
+				}
+				c.stat("selfplay_moves", int64(nm))
+				tps, _ := hex.DecodeString(part[1])
+				if string(tps) != c17FormatTPS(a) {
+					c.printf("ORACLE-FAIL selfplay-position-wrong | %s | game %d: Position %q | the opening with the %d moves applied: %q\n", inp, g, tps, nm, c17FormatTPS(a))
+					bad = true
+					break
+				}
+				over, wcol, _ := a.outcome()
+				want := "none"
+				kind := "cutoff"
+				switch {
+				case over:
+					kind = "board"
+					if wcol == tak.White {
+						want = "white"
+					} else if wcol == tak.Black {
+						want = "black"
+					}
+				case nm < s.cutoff:
+					kind = "time"
+					want = "black"
+					if a.toMove() == tak.Black {
+						want = "white"
+					}
+					if s.gametime == 0 {
+						want = "a game that is neither over nor at the cutoff needs a clock"
+					}
+				}
+				c.stat("selfplay_end_"+kind, 1)
+				if part[2] != want {
+					c.printf("ORACLE-FAIL selfplay-winner-wrong | %s | game %d ended (%s) in %s after %d moves with Winner %s | %s\n", inp, g, kind, c17FormatTPS(a), nm, part[2], want)
+					bad = true
+					break
+				}
+			}
+		}
+		if bad {
+			continue
+		}
+		l1, _ := decodeLog(f[4])
+		l2, t2 := decodeLog(f[5])
+		tr2 := "-"
+		if strings.HasPrefix(s.p2, "rules:") && len(t2) > 0 {
+			tr2 = strings.Join(t2, ",")
+		}
+		p2 := s.p2
+		if strings.HasPrefix(p2, "rules:") {
+			p2 = "rules:"
+		}
+		c.printf("CASE W %d %d %d %d %s %s %s %s %s | %s %s %s %s\n", s.cutoff, s.limit, s.gametime, s.inc, s.p1, p2, games[i], s.slow, tr2,
+			status, f[3], strings.Join(l1, ","), strings.Join(l2, ","))
+		if i < 2 {
+			c.printf("SAMPLE selfplay %s: cutoff %d, %s vs %s, %d game(s) -> %s %s\n", s.family, s.cutoff, s.p1, p2, len(s.openings), status, f[3])
+		}
+	}
 }
 
 func c17Fixed() []*c17Script {
